@@ -2,9 +2,8 @@
    line written by the Go harness) to the canonical text of the model's
    observable.  Used identically by the extracted OCaml driver and by the
    in-Coq vm_compute evaluation. *)
-From Lungo.Model Require Import Compare RunAccess ApiOps RunOplog RunSpec RunSort File RunMatch Fs FsRun Stream.
+From Lungo.Model Require Import Compare RunAccess ApiOps RunOplog RunSpec RunSort File RunMatch Fs FsRun Stream Gridfs Project.
 From Lungo.Spec Require Import RunRef.
-From Lungo.Model Require Import Gridfs.
 Open Scope string_scope.
 
 Definition bad : string := "BAD-CASE".
@@ -40,6 +39,7 @@ Definition runners : list (sexp -> option string) :=
   ; run_stream
   ; run_sched
   ; run_gridfs
+  ; run_project
   ].
 
 Fixpoint first_some (rs : list (sexp -> option string)) (x : sexp) : string :=
